@@ -60,6 +60,7 @@ func init() {
 }
 
 func runC12(c *Ctx, r *Report) {
+	importFoundation(c, r, "C12", "ansi")
 	importFoundation(c, r, "C12", "send-input")
 	importFoundation(c, r, "C12", "read-loop")
 	r.Rule("C12/explicit-matcher", "the exact echo matcher tests that the search window contains the input", 1)
